@@ -138,3 +138,64 @@ Example C15_send_data_nonvacuous :
   send_data ORaisesException OOk OOk = ([EvHook], SDFalse) /\
   send_data OOk ORaisesBase OOk = ([EvWrite], SDRaises).
 Proof. repeat split; reflexivity. Qed.
+
+(* ---------- writes that start failing, over the endpoint state machine ----------
+   (added after the header was written: the clause the header lists as "NOT proved here" is now
+   proved, Proofs/C15Endpoint.v, over Model/Endpoint.v - the same model C01 / C06 tie to the real
+   endpoint after every event.)
+   "A transport whose writes start failing at any point never brings the read loop down or stops
+   later inbound messages from taking effect": for EVERY configuration c whose writer works
+   (blocking or awaitable writer; default, quiet or raising hook), every failure point k (the k-th
+   write, counted from 0, and all later ones raise) and EVERY event list (requests with sync /
+   async / thread handlers, notifications, cancels, shutdown, exit, responses, outgoing requests,
+   any interleaving of task steps, callbacks, pool jobs and awaitable writes):
+   - the inbound side of the failing run equals that of the working run: handler log (who started,
+     ended, was cancelled; order; thread), handler tasks and pool jobs with their states, in-flight
+     tables, queue of awaitable writes, shutdown flag, closed, the queued and the taken exit decision
+     (`exit` is the only way the model's loop stops: the loop is alive in one run iff in the other);
+   - exactly the first k frames of the working run reached the transport;
+   - no report is lost or reordered, the additional ones are JsonRpcInternalError reports;
+   - blocking writer with a quiet or raising hook: the same write calls, exactly one additional
+     report per failed write.  Under the default LanguageServer hook a failed write makes the hook
+     itself write (window/showMessage), which fails again - the model's `storm` flag: errs beyond
+     the clause above, nwrites and storm are then not compared. *)
+From Coq Require Import ZArith.
+From Pygls Require Model.Endpoint Proofs.C15Endpoint.
+
+Definition C15_failing_writer_statement : Prop :=
+  forall (c : Endpoint.cfg) (k : nat) (evs : list Endpoint.ev), Endpoint.c_wfail c = None ->
+    let a := Endpoint.run (C15Endpoint.failing_from c k) evs in
+    let s := Endpoint.run c evs in
+    C15Endpoint.inbound_of a = C15Endpoint.inbound_of s /\
+    Endpoint.out a = firstn k (Endpoint.out s) /\
+    filter C15Endpoint.nonint (Endpoint.errs a) = filter C15Endpoint.nonint (Endpoint.errs s) /\
+    (C15Endpoint.blocking_quiet c = true ->
+       Endpoint.nwrites a = Endpoint.nwrites s /\
+       length (Endpoint.errs a) = (length (Endpoint.errs s) + (Endpoint.nwrites a - k))%nat).
+
+Theorem C15_failing_writer : C15_failing_writer_statement.
+Proof. exact C15Endpoint.failing_writer_core. Qed.
+Print Assumptions C15_failing_writer.
+
+(* non-vacuity: an async request, a thread request and a raising notification while the transport
+   dies at the second write (the reply to request 1 is the only frame that gets out); later a cancel and a shutdown still take effect *)
+Example C15_failing_writer_nonvacuous :
+  let c := Endpoint.mkCfg Endpoint.WBlocking Endpoint.HookQuiet None in
+  let b k o := Endpoint.mkB k o Endpoint.Propagate in
+  let evs := [ Endpoint.Recv (Endpoint.FReq true (Endpoint.IInt 1%Z) Endpoint.POk (Endpoint.RUser (b Endpoint.HSync (Endpoint.ORet 1%Z))));
+               Endpoint.Recv (Endpoint.FReq true (Endpoint.IInt 2%Z) Endpoint.POk (Endpoint.RUser (b (Endpoint.HAsync 1%nat) (Endpoint.ORet 2%Z))));
+               Endpoint.Recv (Endpoint.FReq true (Endpoint.IInt 3%Z) Endpoint.POk (Endpoint.RUser (b (Endpoint.HThread false) (Endpoint.ORet 3%Z))));
+               Endpoint.TaskStep 0%nat; Endpoint.JobStart 0%nat;
+               Endpoint.Recv (Endpoint.FNotif true 1%nat Endpoint.POk (Endpoint.NUser (b Endpoint.HSync Endpoint.ORaise)));
+               Endpoint.JobFinish 0%nat;
+               Endpoint.Recv (Endpoint.FNotif true 2%nat Endpoint.POk (Endpoint.NCancel (Endpoint.IInt 2%Z)));
+               Endpoint.TaskStep 0%nat; Endpoint.LoopCb 0%nat;
+               Endpoint.Recv (Endpoint.FReq true (Endpoint.IInt 4%Z) Endpoint.POk (Endpoint.RShutdown None)) ] in
+  let a := Endpoint.run (C15Endpoint.failing_from c 1%nat) evs in
+  let s := Endpoint.run c evs in
+  length (Endpoint.out s) = 4%nat /\ length (Endpoint.out a) = 1%nat /\
+  Endpoint.shutdown a = true /\ Endpoint.exit a = None /\ Endpoint.futs a = [] /\
+  length (Endpoint.hlog a) = 10%nat /\ Endpoint.hlog a = Endpoint.hlog s /\
+  Endpoint.errs s = [Endpoint.EFeatureNotification] /\
+  Endpoint.errs a = [Endpoint.EFeatureNotification; Endpoint.EInternal; Endpoint.EInternal; Endpoint.EInternal].
+Proof. vm_compute. repeat split. Qed.
